@@ -97,17 +97,20 @@ class IncludeNode(ConfigNode):
                 raise ValueError(f'Include node expects a string parameter with a filename to read, but got: {type(filename)}')
 
         self.filenames = [os.path.expanduser(f) for f in filenames]
+        # names given as nodes carry their own safety (e.g. "!include [a.yaml, !unsafe b.yaml]"), files named by unsafe
+        # elements are to be read as unsafe content even if the include node itself is safe
+        self._filenames_safe = [bool(f.ayns.safe) if isinstance(f, ConfigNode) else True for f in filenames]
 
     @namespace('ayns')
     def on_preprocess_impl(self, path, builder):
         subbuilder = builder.get_subbuilder(path)
         missing = []
-        for filename in self.filenames:
+        for filename, filename_safe in zip(self.filenames, self._filenames_safe):
             found = False
             for lookup_dir in subbuilder.get_lookup_dirs(self._source_file):
                 file = os.path.normpath(os.path.join(lookup_dir, filename))
                 try:
-                    subbuilder.add_source(file, raw_yaml=False, safe=self.ayns.safe)
+                    subbuilder.add_source(file, raw_yaml=False, safe=(self.ayns.safe and filename_safe))
                     found = True
                 except FileNotFoundError:
                     continue
